@@ -28,7 +28,7 @@ Arguments Panic {A}.
 Arguments OutOfFuel {A}.
 
 (* what the peer does once its scripted bytes are used up *)
-Inductive send := Stall | Closed.
+Inductive send := Stall | Closed | Reset.   (* silence until the deadline | orderly close (EOF) | connection reset *)
 
 (* io.ReadFull on a buffered stream *)
 Inductive rf :=
@@ -40,7 +40,7 @@ Definition read_full (n : nat) (s : list N) : rf :=
 
 (* error returned by io.ReadFull when the stream ends early *)
 Definition short_err (e : send) : err :=
-  match e with Stall => ETimeout | Closed => EIO end.
+  match e with Stall => ETimeout | Closed => EIO | Reset => EIO end.
 
 (* ------------------------------------------------------------------ MBAP *)
 
@@ -139,6 +139,7 @@ Definition read_rtu (e : send) (s : list N) : result pdu * list N :=
                        EOF after a partial read becomes ErrUnexpectedEOF => short frame *)
                     match e, got with
                     | Stall, _ => (Err ETimeout, [])
+                    | Reset, _ => (Err EIO, [])
                     | Closed, [] => (Err EIO, [])
                     | Closed, _ => (Err EShortFrame, [])
                     end
